@@ -32,6 +32,8 @@ def run(prog, tier):
     import p_c05
     p_c05.sync_table_rule(prog, res, rule='load-reconcile')
     CR.reader_refusals_rule(prog, res)
+    # every sample is exposed with the bits the file holds: REAL values travel as float, by copies only
+    CR.float_path_rule(prog, res, 'sample-bits')
     CR.copy_completeness_rule(prog, res)
     # strings are stored trimmed: the trimmer must empty a cell made only of padding
     import p_c11
